@@ -412,9 +412,10 @@ func (e *envA) doCopy(ctx context.Context, op Op) *evid.Violation {
 	}
 	bf, bi := listDigestFiles(e.tgt), e.readIndexBytes()
 	cctx, cancel := context.WithTimeout(ctx, 60*time.Second)
+	t0 := time.Now()
 	cerr := e.rc.ImageCopy(cctx, src, tgt, opts...)
 	finished.Store(true)
-	if cctx.Err() == context.DeadlineExceeded {
+	if cctx.Err() == context.DeadlineExceeded && time.Since(t0) > 50*time.Second {
 		e.watchdog = true
 	}
 	cancel()
@@ -483,7 +484,11 @@ func (e *envA) report(v *evid.Violation) *evid.Violation {
 }
 
 // closeAndJudge is the oracle: it is evaluated around every Close.
-func (e *envA) closeAndJudge(ctx context.Context, step string) *evid.Violation {
+func (e *envA) closeAndJudge(ctxKind int, step string) *evid.Violation {
+	ctx, cancelCtx := mkCtx(ctxKind)
+	defer cancelCtx()
+	live := ctxKind%4 == 0
+	e.class("A:close-ctx:" + ctxName(ctxKind))
 	before := takeSnap(e.tgt)
 	rb := reach(e.tgt)
 	rb.resolveEdges()
@@ -539,13 +544,27 @@ func (e *envA) closeAndJudge(ctx context.Context, step string) *evid.Violation {
 				}
 			}
 		}
-		if cerr != nil {
+		if cerr != nil && !(!live && ctxError(cerr)) {
 			if v := e.report(evid.V("close-returned-error", "%s: Close (GC disabled) returned %v", step, cerr)); v != nil {
 				return v
 			}
 		}
 		e.class("A:close-gc-off")
 		return nil
+	}
+	if cerr != nil && !live && ctxError(cerr) {
+		// a Close that gives up because its context is dead may skip the collection: it stays due
+		e.class("A:close-dead-ctx-returned-ctx-error")
+		return nil
+	}
+	if !live {
+		// Close returned nil with a dead context: whether it collected or skipped is its choice (the statement only says
+		// what a collection that does run removes); the harness no longer knows whether one is due
+		e.class("A:close-dead-ctx-returned-nil")
+		if cerr == nil {
+			e.due = false
+			return nil
+		}
 	}
 	if cerr != nil {
 		// A layout that only ever received blobs has no index.json yet; Close then fails on reading it. The statement
@@ -672,8 +691,15 @@ func checkA(cs Case, ev *evid.Collector) *evid.Violation {
 	for i, op := range c.Ops {
 		op.Node = ((op.Node % nN) + nN) % nN
 		n := g.Nodes[op.Node]
-		step := fmt.Sprintf("step %d (%s)", i, op.Kind)
+		step := fmt.Sprintf("step %d (%s, context %s)", i, op.Kind, ctxName(op.Ctx))
 		e.class("A:op:" + op.Kind)
+		ctx, cancelOp := context.WithCancel(context.Background())
+		if op.Kind != "close" && op.Ctx%4 != 0 {
+			cancelOp()
+			ctx, cancelOp = mkCtx(op.Ctx)
+			e.class("A:op-with-dead-context")
+			e.trace = append(e.trace, "ctx="+ctxName(op.Ctx))
+		}
 		switch op.Kind {
 		case "copy":
 			if c.System != "rc" {
@@ -759,13 +785,15 @@ func checkA(cs Case, ev *evid.Collector) *evid.Violation {
 			e.trace = append(e.trace, fmt.Sprintf("%d:reopen", i))
 			e.newClient()
 		case "close":
-			e.trace = append(e.trace, fmt.Sprintf("%d:close(due=%v)", i, e.due))
-			if v := e.closeAndJudge(ctx, step); v != nil {
+			e.trace = append(e.trace, fmt.Sprintf("%d:close(due=%v,ctx=%s)", i, e.due, ctxName(op.Ctx)))
+			if v := e.closeAndJudge(op.Ctx, step); v != nil {
+				cancelOp()
 				return finish(v)
 			}
 		default:
 			return finish(&evid.Violation{Sig: "harness-bad-case", Msg: "unknown op " + op.Kind})
 		}
+		cancelOp()
 		if op.Kind != "close" && op.Kind != "tmp" && op.Kind != "reopen" {
 			for d := range reach(e.tgt).info {
 				e.everR[d] = true
@@ -777,7 +805,7 @@ func checkA(cs Case, ev *evid.Collector) *evid.Violation {
 		e.due = true
 	}
 	e.trace = append(e.trace, fmt.Sprintf("sentinel blob; final close(due=%v)", e.due))
-	return finish(e.closeAndJudge(ctx, "final close"))
+	return finish(e.closeAndJudge(0, "final close"))
 }
 
 // saveWatchdog keeps a case whose copy ran into the wall-clock watchdog (inconclusive, never a violation) for inspection.
